@@ -19,7 +19,7 @@ CHECKS = {
             "long inputs and long programs are sampled; allocation is metered with runtime/metrics and confirmed by an exact MemStats bracket before it is reported; a process killed by the runtime is replayed from a crash journal",
             "exhaustive small-scope enumeration + stateful property-based testing (rapid) against a reference item model; native fuzzing in the thorough tier"),
     "C19": ("wire",
-            "rapid-generated nested-message cases over the five flavours (MarshalTo, Marshal-only, plain gogo, plain Google v1, plain Google v2 incl. well-known types and typed nil) x positions x failing stubs x inflated lengths; byte-exact oracle prefix|key|len|csproto.Marshal(m)|suffix on an exactly-sized buffer, decode-side cursor/equality/error-propagation oracle",
+            "rapid-generated nested-message cases over the five flavours (MarshalTo, Marshal-only, plain gogo, plain Google v1, plain Google v2 incl. well-known types and typed nil) plus a Marshal-only wrapper around a Google v2 message and a message whose child lacks required fields) x positions x failing stubs x inflated lengths (also at the top of the int64 / uint64 range); byte-exact oracle prefix|key|len|csproto.Marshal(m)|suffix on an exactly-sized buffer, decode-side cursor/equality/error-propagation oracle",
             "plain gogo is represented by gogo's descriptor.DescriptorProto (registered with gogo, XXX_ methods, no Marshal); Google v1 by a hand-written pre-APIv2 style struct with XXX_ methods",
             "property-based testing (rapid), byte-exact reference construction with refwire"),
     "C04": ("gencode",
@@ -27,7 +27,7 @@ CHECKS = {
             "no protoc in the sandbox: descriptors are built programmatically and fed to the plug-ins by a protoc replacement (fidelity: byte-identical regeneration of the repository's examples was probed); shapes listed in known_findings.jsonl are steered away from by construction and counted",
             "property-based testing (rapid) + systematic boundary sweep over regenerated code"),
     "C05": ("gencode",
-            "same case stream as C04 (own run): the bytes of the generated Marshal are parsed by dynamicpb from the schema alone and must equal the original incl. presence and unknown bytes; additionally, at every nesting level the set of field numbers on the wire must equal the set of populated fields (no phantom defaults, nothing dropped)",
+            "same case stream as C04 (own run): the bytes of the generated Marshal are parsed by dynamicpb from the schema alone and must equal the original incl. presence and unknown bytes; additionally, at every nesting level the set of field numbers on the wire must equal the set of populated fields (no phantom defaults, nothing dropped); for Google-runtime types with a well-known-type child the value is marshaled once more after that child was sized by its runtime and grown in place",
             "the dynamic reference never consults generated methods (gogo's and golang's own Marshal would delegate to them); byte equality with the reference encoder is not required",
             "property-based differential testing (rapid) against descriptor-driven dynamicpb"),
     "C06": ("gencode",
@@ -43,7 +43,7 @@ CHECKS = {
             "csproto rejecting what the reference tolerates is not a violation; allocation is metered with runtime/metrics and confirmed by an exact MemStats bracket; a killed process is replayed from its crash journal",
             "mutation-based property testing (rapid) with a both-accept differential oracle; native fuzzing in the thorough tier"),
     "C09": ("gencode",
-            "rapid-generated programs (<= 25 ops: field set/clear/grow/shrink through reflection stores incl. fields of existing children, Size, Marshal, MarshalTo, csproto.Size/Marshal, the runtime's own Size/Marshal, Unmarshal, Reset, Clone) on one live message; after every Marshal* the bytes must equal Marshal of a fresh message built from the model; plus a -race binary with 2..32 goroutines calling Size/Marshal/MarshalTo on one unmutated message",
+            "rapid-generated programs (<= 25 ops: field set/clear/grow/shrink through reflection stores incl. fields of existing children, Size, Marshal, MarshalTo, csproto.Size/Marshal, the runtime's own Size/Marshal on the message or directly on a well-known-type child, Unmarshal, Reset, Clone with the program continuing on the copy or on the original) on one live message, plus histories through csproto on a plain gogo message generated with gogo's sizer but not its marshaler plug-in; after every Marshal* the bytes must equal Marshal of a fresh message built from the model; plus a -race binary with 2..32 goroutines calling Size/Marshal/MarshalTo on one unmutated message",
             "up to map-entry order when a map has >= 2 entries; mutation during a concurrent Marshal is outside the property; schedules are sampled",
             "model-based stateful property testing (rapid) + race-detector stress"),
     "C10": ("gencode",
@@ -79,7 +79,7 @@ CHECKS = {
             "sync.Pool is made deterministic for replay by running the check at GOMAXPROCS=1 with the GC run only between cases; misuse (use after Close, double Close) is not generated",
             "model-based stateful property testing (rapid), programs generated as data"),
     "C15": ("lazy",
-            "rapid-generated concurrent rounds: one shared Decoder, 2..64 goroutines released by a barrier, each looping Decode/read/compare-with-own-expectation/Close with generated yield points, GOMAXPROCS in {1,2,16}, binary built with -race (halt on first report); a round that races or returns foreign values is replayed from its journal in a fresh process",
+            "rapid-generated concurrent rounds: one shared Decoder, 2..64 goroutines released by a barrier, each looping Decode/read/compare-with-own-expectation/Close with generated yield points, GOMAXPROCS in {1,2,16}, binary built with -race (halt on first report); a round that races or returns foreign values is replayed from its journal in a fresh process; plus cold-start rounds in fresh child processes in which the first lazyproto calls of the process (Decode, every accessor of every field, NestedResults, Close) are made by 8 goroutines sharing one Decoder",
             "the Go scheduler is not owned by the harness: interleavings are sampled; what is claimed is 'no race on the executed paths + correct values in every sampled schedule'",
             "randomised concurrent stress generated by rapid + Go race detector + per-goroutine reference oracle"),
     "C20": ("tools",
